@@ -456,16 +456,22 @@ func effectsOf(c *an.Ctx, fn *ssa.Function, pkg string, universe map[*ssa.Functi
 				if !ok {
 					return
 				}
-				cf := an.StaticCallee(ci)
-				if cf == nil {
-					return
+				cands := []*ssa.Function{an.StaticCallee(ci)}
+				if cands[0] == nil {
+					// a method value chosen at run time: any of them may be called
+					cands = an.MethodValueCallees(ci)
 				}
-				if name, ok := universe[cf]; ok {
-					out[name] = true
-					return
-				}
-				if cf.Pkg != nil && cf.Pkg.Pkg.Path() == an.ModPath+"/"+pkg && cf.Blocks != nil {
-					walk(cf, d+1)
+				for _, cf := range cands {
+					if cf == nil {
+						continue
+					}
+					if name, ok := universe[cf]; ok {
+						out[name] = true
+						continue
+					}
+					if cf.Pkg != nil && cf.Pkg.Pkg.Path() == an.ModPath+"/"+pkg && cf.Blocks != nil {
+						walk(cf, d+1)
+					}
 				}
 			})
 		}
